@@ -1,5 +1,6 @@
 pub mod inflight;
 pub mod lifecycle;
+pub mod published_uids;
 pub mod range_allocator;
 pub mod segment_id;
 pub mod segment_id_loader;
@@ -11,6 +12,8 @@ pub mod verifier;
 mod inflight_test;
 #[cfg(test)]
 mod lifecycle_test;
+#[cfg(test)]
+mod published_uids_test;
 #[cfg(test)]
 mod range_allocator_test;
 #[cfg(test)]
